@@ -33,4 +33,11 @@ theorem fact_basefee_guards :
        "gasLimit.Uint64()/ethparams.ElasticityMultiplier==0",
        "nextBaseFee.BitLen()>sdkmath.MaxBitLen"] := by decide +kernel
 
+/-- **one base fee**: the EVM keeper returns the fee market's stored base fee unmodified, and the fee market returns the
+parameter itself — so the ante handler (charge), the message server (refund) and the EVM configuration (effective price
+of the receipt) price a transaction with one and the same number (`C05_one_price` assumes exactly that) -/
+theorem fact_one_base_fee :
+    Gen.evmGetBaseFeeReturns = ["k.feeMarketKeeper.GetBaseFee(ctx)"] ∧
+    Gen.feemarketGetBaseFeeReturns = ["k.GetParams(ctx).BaseFee"] := by decide +kernel
+
 end Evermint.Facts.C09
